@@ -79,6 +79,7 @@ def run(chk):
                     chk.violation({"kind": "eval", "expr": evalgen.render(q), "doc": d, "impl": g_.decode("utf-8", "replace"), "expect": w_.decode("utf-8", "replace")},
                                   True, "`%s` does not describe where the nodes are" % what)
     stale = {}
+    undecided = 0
     # ---- history oracle
     hoff = 3 * len(docs) + len(derived)
     hdocs = evalcheck.impl_eval(hist)
@@ -110,6 +111,11 @@ def run(chk):
             rb = [o for o in c03.STALE_OPS if o in uops]
             if rb and (hoff + i) not in mm and (hoff + i) not in evalcheck.LAST_UNSUP and chk.is_known("stale-key-" + rb[0]):
                 stale.setdefault(rb[0], (evalgen.render(cases[hoff + i][0]), d, got, want))
+                continue
+            if rb and (hoff + i) in evalcheck.LAST_UNSUP and chk.is_known("stale-key-" + rb[0]):
+                # a container-rebuilding operator is involved but the history is outside the model's fragment (an integer
+                # index on a map, ...): the model cannot say whether this is exactly the recorded class, so it is not judged
+                undecided += 1
                 continue
             nviol += 1
             if nviol <= 5:
@@ -162,6 +168,7 @@ def run(chk):
             chk.known_finding("stale-key-" + op, "%s on %s -> %s" % (e, d, bad))
     for op, (expr, d, got, want) in sorted(stale.items()):
         chk.known_finding("stale-key-" + op, "%s on %s -> %s, expected %s" % (expr, json.dumps(d), got.decode("utf-8", "replace").strip()[:120], want.decode("utf-8", "replace").strip()[:120]))
+    chk.extra["histories_not_judged(outside model fragment, rebuilt container involved)"] = undecided
     chk.extra["distribution"] = {"fresh_docs": len(docs), "derived": len(derived), "retraversals": len(rt), "impl_outcomes": evalcheck.outcome_stats(impl),
                                  "outside_model_fragment(UNSUP)": unsup, "stale_key_classes_seen": sorted(stale)}
     if mm and not chk.violations:
